@@ -30,7 +30,7 @@ ASSUMPTIONS = ["the unquoters keep at most 3 pending escape bytes, so <= 4-5 esc
 UNQ = A.UNQ + ["\ud800"]
 UNQCORE = ["%41", "%2F", "%2b", "%25", "%26", "%20", "%C3", "%A9", "%c3", "%E2", "%82", "%AC", "%F0", "%9F", "%98", "%80",
            "%FF", "%ED", "%A0", "%", "%4", "a", "+", "é", "/"]
-ALPHAS = {"UNQ": UNQ, "UNQCORE": UNQCORE, "FULL": A.ASCII + A.UNI + A.ESC}
+ALPHAS = {"UNQ": UNQ, "UNQCORE": UNQCORE, "FULL": A.ASCII + A.LATIN1_HIGH + A.UNI + A.ESC}
 
 
 def unq_ref(kw, w):
@@ -107,6 +107,18 @@ def case_accessors(acc, rname, w, encoded):
     except Exception:  # noqa: BLE001
         acc.count("other_exception")
         return None
+    try:
+        # the same views read in the opposite order on a cache-free twin: a view must not depend on which other view was read first
+        import pickle
+        t = pickle.loads(pickle.dumps(u))
+        rev = {}
+        for name in ("fragment", "query_string", "suffixes", "suffix", "name", "parts", "path_safe", "path", "password", "user"):
+            rev[name] = getattr(t, name)
+        for name, val in rev.items():
+            if val != getattr(u, name):
+                probs.append("%s depends on the order of reading: %r (read in reverse order on a twin) vs %r" % (name, val, getattr(u, name)))
+    except (ValueError, TypeError):
+        pass
     if "%" in s or "+" in s:
         acc.nontrivial += 1
     if probs:
